@@ -14,10 +14,16 @@ _KEYPAIRS = {}
 
 
 def keypair(i=0):
-    """(pubkey, privkey) for create_mutable_file(unique_keypair=…); generated once per process."""
+    """(pubkey, privkey) for create_mutable_file(unique_keypair=…): fixed test keys, so that runs are
+    reproducible across processes (the storage index decides the server permutation)."""
     if i not in _KEYPAIRS:
+        import base64
         from allmydata.crypto import rsa
-        priv, pub = rsa.create_signing_keypair(2048)
+        from props import _mutable_keys
+        if i < len(_mutable_keys.KEYS):
+            priv, pub = rsa.create_signing_keypair_from_string(base64.b64decode(_mutable_keys.KEYS[i]))
+        else:
+            priv, pub = rsa.create_signing_keypair(2048)
         _KEYPAIRS[i] = (pub, priv)
     return _KEYPAIRS[i]
 
